@@ -7,7 +7,7 @@ From stdpp Require Import gmap list.
 From Coq Require Import NArith ZArith.
 From VFS Require Import Core.Types Core.Prog Core.Calls Base.MemFS Base.Handles Base.Store Layer.VfsPath
   Proofs.MemProofs Proofs.MemCalls Proofs.MemPublic Proofs.ConcProofs Proofs.Composite Proofs.ErrPaths Proofs.Leaves
-  Proofs.WalkProofs Proofs.RemoveAll Proofs.CopyFile.
+  Proofs.WalkProofs Proofs.RemoveAll Proofs.CopyFile Proofs.OvlProofs Proofs.OvlAppend.
 
 Notation mstate := (gmap (list (list N)) memfile).
 
@@ -72,6 +72,22 @@ Theorem C11_move_file_exact : forall lg ft (s : mstate) (hs : list hstate) (p q 
   (mstore (<[q := fresh_file (f_content f)]> (delete p s)) (hs ++ [HClosed; HClosed]) lg ft, Ok tt).
 Proof. exact move_file_exact. Qed.
 
+(** ... and between TWO MemoryFS instances (source filesystem s1 behind v1, destination s0 behind v0): the
+    same destination - exactly the source's bytes -, the source kept (access time stamped by the read)
+    / removed, nothing else changed in either filesystem, both handles closed: the result is the same
+    as within one instance *)
+Theorem C11_copy_file_across_instances : forall lg ft (s0 s1 : mstate) (hs : list hstate) (p q : path) (f : memfile),
+  s1 !! p = Some f -> f_type f = File -> q <> [] -> is_dir s0 (removelast q) -> s0 !! q = None ->
+  run bhandler (vp_copy_file v1 p v0 q) (mstore2 s0 s1 hs lg ft) =
+  (mstore2 (<[q := fresh_file (f_content f)]> s0) (<[p := touched f]> s1) (hs ++ [HClosed; HClosed]) lg ft, Ok tt).
+Proof. exact copy_file_across. Qed.
+
+Theorem C11_move_file_across_instances : forall lg ft (s0 s1 : mstate) (hs : list hstate) (p q : path) (f : memfile),
+  s1 !! p = Some f -> f_type f = File -> q <> [] -> is_dir s0 (removelast q) -> s0 !! q = None ->
+  run bhandler (vp_move_file v1 p v0 q) (mstore2 s0 s1 hs lg ft) =
+  (mstore2 (<[q := fresh_file (f_content f)]> s0) (delete p s1) (hs ++ [HClosed; HClosed]) lg ft, Ok tt).
+Proof. exact move_file_across. Qed.
+
 Example C11_example :
   exists s', fst (run bhandler (vp_create_dir_all mv [[97%N]; [98%N]; [99%N]]) (mstore mem_new [] [] None)) = mstore s' [] [] None /\
              is_Some (s' !! [[97%N]; [98%N]; [99%N]]) /\ is_Some (s' !! [[97%N]; [98%N]]) /\ s' !! [[98%N]] = None.
@@ -85,3 +101,5 @@ Print Assumptions C11_remove_dir_all_exact.
 Print Assumptions C11_remove_dir_all_absent.
 Print Assumptions C11_copy_file_exact.
 Print Assumptions C11_move_file_exact.
+Print Assumptions C11_copy_file_across_instances.
+Print Assumptions C11_move_file_across_instances.
